@@ -330,9 +330,9 @@ def identical(E, a, b):
             return False
         if isinstance(b, (VI, VB, VS, VR)) and isinstance(a, VC) and a.v is None:
             return False
-        if isinstance(a, (VT, VRef, VExc, VSeq)) and isinstance(b, VC):
+        if isinstance(a, (VT, VRef, VExc, VSeq, VBM, VFn, VCls, VBI)) and isinstance(b, VC):
             return False
-        if isinstance(b, (VT, VRef, VExc, VSeq)) and isinstance(a, VC):
+        if isinstance(b, (VT, VRef, VExc, VSeq, VBM, VFn, VCls, VBI)) and isinstance(a, VC):
             return False
     if isinstance(a, VT) and isinstance(b, VT):
         return a is b
@@ -919,11 +919,15 @@ def getattr_(E, obj, name):
             return o
         if name == '__class__':
             return VBI(obj.cls)
+        if name == '__str__':
+            return VBM(VBI('object.__str__'), obj)       # every exception object has one
         _raise('AttributeError', name)
     if isinstance(obj, VO):
         t = known_type(E, obj)
         if t == 'str' and name in STR_METHODS:
             return VBM(VBI('str.' + name), obj)
+        if t == 'bytes' and name == 'decode':
+            return VBM(VBI('bytes.decode'), obj)
         if t in ('str', 'int', 'tuple', 'bytes', 'float'):
             if name.startswith('__'):
                 return VBM(VBI('object.' + name), obj)
